@@ -63,20 +63,83 @@ def run_dynamic(ctx, impl, hists, oracle, keep, use_model=True, addr=0, label=""
                 d = C.first_diff(a, b)
                 mism.append((h, "line %d: implementation `%s` / model `%s`" % d))
     ctx.count("histories[%s%s]" % (impl.name, label), len(hists))
+    if os.environ.get("HW_SHRINK_SELFTEST") and not fails:
+        shrink_selftest(ctx, impl, hists, oracle)
     return fails, mism, itr
+
+
+def model_guard(impl, oracle, addr, h0):
+    """Soundness of shrinking.  An oracle is written for histories of the shape its generator produces; a shrink candidate
+    (a line dropped, an argument shortened) may leave that shape, and the oracle could then condemn a script that 'fails' on
+    correct code too.  The model is proved to satisfy the properties, so a candidate is accepted only if the oracle, applied
+    to the MODEL's transcript of the same candidate, finds nothing wrong: whatever it then reports on the implementation's
+    transcript is a difference between the implementation and a correct behaviour, not an artefact of the script.
+    (If the oracle reads lines only the implementation prints — ALLOC — it condemns the model's transcript of the original
+    history as well; the guard is then off and the oracle is relied on alone; the self-test below measures that case.)"""
+    def model_ok(c):
+        try:
+            mt = C.model_run([c], impl.profile(), impl.cfg_string(), addr).get(c.hid, [])
+            return bool(mt) and not any(l.startswith("ILL") for l in mt) and oracle(c, mt) is None
+        except Exception:
+            return False
+    probe = History(h0.hid + 300000000, list(h0.lines), dict(h0.meta))
+    if not model_ok(probe):
+        return lambda c: True
+    return model_ok
+
+
+def shrink_selftest(ctx, impl, hists, oracle, per=int(os.environ.get("HW_SHRINK_SELFTEST_N", "40"))):
+    """Self-test of the machinery (not a property check): on a tree where every generated history passes, every candidate
+    the shrinker could propose (one line dropped, one data argument shortened / zeroed) must get NO failing verdict from
+    the oracle — otherwise a replay produced by shrinking could be a script that 'fails' on correct code."""
+    DATA = ("append", "write", "hwrite", "writeall", "iocopy", "hash64", "hash128", "hash256")
+    cands = []
+    step = max(1, len(hists) // per)
+    for h in hists[::step][:per]:
+        for i in range(len(h.lines)):
+            c = h.lines[:i] + h.lines[i + 1:]
+            if c:
+                cands.append(c)
+            t = h.lines[i].split()
+            if t and t[0] in DATA and len(t) > 2 and t[2] != "-":
+                d = t[2]
+                for nd in (d[: (len(d) // 4) * 2], d[: len(d) - 2], "00" * (len(d) // 2)):
+                    if nd != d:
+                        c = list(h.lines)
+                        c[i] = " ".join(t[:2] + [nd or "-"] + t[3:])
+                        cands.append(c)
+    hs = [History(200000000 + k, c, {}) for k, c in enumerate(cands)]
+    tr, _ = C.impl_run(impl, hs)
+    bad = 0
+    guard = model_guard(impl, oracle, 0, hists[0])
+    for c in hs:
+        il = tr.get(c.hid, [])
+        if any(l.startswith("ILL") for l in il) or (il and il[-1].startswith("CRASH")) or not il:
+            continue
+        try:
+            msg = oracle(c, il)
+        except Exception:
+            msg = None
+        if msg and guard(c):
+            bad += 1
+            if bad <= 3:
+                log("SHRINK-SELFTEST %s: oracle condemns a shrink candidate on a passing tree: %s\n  %s" % (ctx.pid, msg, "\n  ".join(c.lines)))
+    log("SHRINK-SELFTEST %s[%s]: %d candidates, %d condemned" % (ctx.pid, impl.name, len(hs), bad))
 
 
 def report(ctx, impl, fails, mism, oracle, keep, what, max_report=1, addr=0):
     """Turn oracle failures / correspondence mismatches into violations (with shrunk replays)."""
     for h, msg in fails[:max_report]:
-        def still_fails(c):
+        guard = model_guard(impl, oracle, addr, h)
+
+        def still_fails(c, guard=guard):
             tr, _ = C.impl_run(impl, [c])
             il = tr.get(c.hid, [])
             if il and il[-1].startswith("CRASH"):
                 return True
             if any(l.startswith("ILL") for l in il):
                 return False
-            return oracle(c, il) is not None
+            return oracle(c, il) is not None and guard(c)
         small = shrink(h, still_fails) if "died" not in msg else h
         tr, _ = C.impl_run(impl, [small])
         ctx.violation("%s: %s" % (what, oracle(small, tr.get(small.hid, [])) or msg), small, impl.name,
@@ -574,7 +637,8 @@ def c07(ctx):
         return None
 
     keep = DIGEST + ("PANIC", "FAULT", "W", "NONE", "CK")
-    multi_dynamic(ctx, ("dev", "release"), make, oracle, keep, "Default vs new(Key::default())", "C07")
+    # the no-std builds matter: there the checked constructors of SseHash / AvxHash decline, and Default must not depend on them
+    multi_dynamic(ctx, QUICK_CONFIGS + ("dev-nostd",) if ctx.tier == "quick" else ALL_CONFIGS, make, oracle, keep, "Default vs new(Key::default())", "C07")
     facts_gate(ctx, "C07")
     proof_verdict(ctx, ok)
 
@@ -893,10 +957,17 @@ def c12(ctx):
             lines = [ctor(b, 0, key)]
             sofar = b""
             aux = 1
-            for step in range(1 + rng.below(9)):
-                m = rng.below(7)
+            ints_only = hid % 5 == 4          # the stream a #[derive(Hash)] struct of integers produces
+            for step in range(1 + rng.below(12 if ints_only else 9)):
+                m = 7 if ints_only and rng.below(4) else rng.below(9)
                 d = G.rand_data(rng, rng.choice(G.CHUNK_LENS + [rng.below(90)]))
-                if m < 4:
+                if m >= 7:
+                    kind = rng.choice(INT_KINDS if not ints_only else INT_KINDS + ("u64", "u64", "u32", "usize"))
+                    d = G.rand_data(rng, INT_WIDTH[kind])
+                    lines.append("hwint 0 %s %s" % (kind, hexs(d)))
+                    sofar += d
+                    ctx.count("hasher_int=%s" % kind)
+                elif m < 4:
                     lines.append("%s 0 %s" % (("write", "writeall", "iocopy", "hwrite")[m], hexs(d)))
                     sofar += d
                 elif m == 4:
@@ -930,8 +1001,14 @@ def c12(ctx):
         if len(outs) != len(h.lines):
             return None
         last_fin = []
+        sofar = ""
         for op, o in zip(h.lines, outs):
             t = op.split()
+            if t[1] == "0" and t[0] in ("write", "writeall", "iocopy", "hwrite", "append", "hwint"):
+                a = t[3] if t[0] == "hwint" else t[2]
+                sofar += "" if a == "-" else a
+            if t[0] == "hash64" and (t[2] if t[2] != "-" else "") != sofar:
+                return None                 # not of the generated shape (a shrink candidate that dropped a write): no verdict
             if t[0] in ("write", "iocopy"):
                 n = 0 if t[2] == "-" else len(t[2]) // 2
                 if o != "W %d" % n:
@@ -951,6 +1028,10 @@ def c12(ctx):
     multi_dynamic(ctx, ("dev", "release"), make, oracle, keep, "std adapters", "C12")
     hashone_check(ctx)
     proof_verdict(ctx, ok)
+
+
+INT_WIDTH = {"u8": 1, "u16": 2, "u32": 4, "u64": 8, "u128": 16, "usize": 8, "i8": 1, "i16": 2, "i32": 4, "i64": 8, "i128": 16, "isize": 8}
+INT_KINDS = tuple(INT_WIDTH)
 
 
 def hashone_check(ctx):
@@ -1188,7 +1269,7 @@ def c15(ctx):
                 for pos in (1, 2, 3):
                     if pos < len(t) and t[pos].isdigit() and len(t[pos]) < 3 and not (t[0].startswith(("new", "fnew")) and pos > 1) \
                             and not (t[0] in ("restore", "frestore") and pos > 1) and not (t[0] == "default" and pos > 1) \
-                            and not (t[0] in ("append", "write", "writeall", "iocopy", "hwrite") and pos > 1) and not (t[0].startswith("hash") and pos > 1) \
+                            and not (t[0] in ("append", "write", "writeall", "iocopy", "hwrite", "hwint") and pos > 1) and not (t[0].startswith("hash") and pos > 1) \
                             and not (t[0] in ("restorefrom", "frestorefrom") and pos == 2):
                         t[pos] = str(int(t[pos]) + 10 * (j + 1))
                 ren.append(" ".join(t))
@@ -1243,6 +1324,19 @@ def c15(ctx):
         if bad:
             ctx.violation("running the histories on 16 threads changes a transcript (%d histories differ)" % len(bad), bad[0], impl.name,
                           extra_lines=["1 thread:"] + t1.get(bad[0].hid, []) + ["16 threads:"] + t16.get(bad[0].hid, []))
+        # stress: every thread runs every history many times at once (same operations at the same instant on different
+        # hasher values): a process-wide scratch slot, cache or lock that is not per-instance shows up as a deviating transcript
+        reps = 12 if ctx.tier == "quick" else 300
+        dev, summary = C.impl_stress(impl, a, threads=16, reps=reps)
+        ctx.count("stress runs[%s]" % name, len(a) * 16 * reps)
+        ctx.extra.setdefault("stress", {})[name] = summary
+        if dev or "died" in summary:
+            hid = sorted(dev)[0] if dev else a[0].hid
+            h = next(x for x in a if x.hid == hid)
+            got, exp = dev.get(hid, ([], []))
+            ctx.violation("under 16 concurrent threads (%s) a hasher's transcript deviates from its single-threaded transcript; replay: "
+                          "harness stress <this script> 16 %d" % (summary, max(reps, 200)), h, impl.name,
+                          extra_lines=["single-threaded:"] + exp + ["concurrent (first deviation):"] + got)
     facts_gate(ctx, "C15")
     proof_verdict(ctx, ok)
 
@@ -1480,6 +1574,11 @@ def replay(pid, path):
         print("\n".join(tr.get(0, [])))
         print("--- model (%s)" % name)
         print("\n".join(mt.get(0, [])))
+        if any("harness stress" in l for l in lines if l.startswith("#")):
+            dev, summary = C.impl_stress(impl, [h], threads=16, reps=3000)
+            print("--- implementation (%s), this history on 16 threads x 3000 at once: %s" % (name, summary))
+            for got, exp in dev.values():
+                print("concurrent transcript that deviated:\n" + "\n".join(got))
     return 0
 
 
